@@ -68,6 +68,15 @@ def cases(tier: str, seed: int) -> List[Dict[str, Any]]:
     for f in (0.1, 3.0, -0.3):
         for prim in ("scale_fwd", "scale_bwd"):
             out.append({"kind": "prim_history", "prim": prim, "factor": f, "seq": ["float16", "bfloat16", "float32", "float64"], "fresh": True})
+    # hyperparameter HISTORIES: the same op and shapes called with one hyperparameter changed between calls (train -> eval
+    # switches dropout_p, a sweep changes mult, ...): the scalars of the LAST call equal those the same call gives as the
+    # first call of a fresh interpreter
+    for opn, key, vals in (("scaled_dot_product_attention", "dropout_p", [0.5, 0.0]), ("scaled_dot_product_attention", "dropout_p", [0.0, 0.5]),
+                           ("scaled_dot_product_attention", "mult", [0.25, 1.0]), ("scaled_dot_product_attention", "is_causal", [True, False]),
+                           ("softmax", "mult", [4.0, 1.0]), ("gelu", "mult", [0.5, 1.0]), ("dropout", "p", [0.5, 0.1]),
+                           ("residual_split", "tau", [0.3, 1.0]), ("residual_add", "tau", [0.3, 1.0])):
+        if opn in OPS:
+            out.append({"kind": "hyper_history", "op": opn, "key": key, "vals": vals, "seed": seed, "fresh": True})
     # "tensors of any shape / dtype": integer and bool tensors take PyTorch's type promotion (0.5 * arange is float)
     for f in FACTORS:
         for dt in ("int64", "int32", "bool"):
@@ -114,6 +123,51 @@ def run_case(case: Dict[str, Any]) -> Dict[str, Any]:
             for v in r["violations"]:
                 sub.append({"key": v["key"] + f"|after_dtypes={'>'.join(case['seq'][:case['seq'].index(dt)]) or 'none'}", "msg": v["msg"]})
         return {"violations": sub[:4], "steps": len(case["seq"]), "outcome": "dtype_history", "nontrivial": True}
+    if case["kind"] == "hyper_history":
+        import json
+        import os
+        import subprocess
+        import sys
+
+        from models.ops import default_cfg
+
+        op = OPS[case["op"]]
+        base = dict(default_cfg(op), dtype="float64")
+        if case["key"] not in base:
+            return {"skipped": f"{case['op']} has no hyperparameter {case['key']}"}
+
+        def scal(cfg: Dict[str, Any]) -> Any:
+            r = probe(op, cfg, case["seed"])
+            if "draws" not in r:
+                return None
+            return [[d.get("s")] + [[g_.get("c") for g_ in d.get("grads", {}).get(k, [])] for k in sorted(d.get("grads", {}))] for d in r["draws"]]
+
+        last = None
+        for v_ in case["vals"]:
+            last = scal(dict(base, **{case["key"]: v_}))
+        if last is None:
+            return {"skipped": "probe not applicable"}
+        if os.environ.get("VERIF_C02_CHILD"):
+            return {"violations": [], "scalars": last}
+        code = ("import json,sys; from checks import c02; r = c02.run_case(json.loads(sys.argv[1])); print('SCALARS=' + json.dumps(r.get('scalars')))")
+        child = dict(case, vals=case["vals"][-1:])
+        pr = subprocess.run([sys.executable, "-c", code, json.dumps(child)], capture_output=True, text=True, timeout=600,
+                            env=dict(os.environ, VERIF_C02_CHILD="1"))
+        line = [ln for ln in pr.stdout.splitlines() if ln.startswith("SCALARS=")]
+        if pr.returncode != 0 or not line:
+            raise RuntimeError("reference interpreter failed: " + pr.stderr[-800:])
+        ref = json.loads(line[0][len("SCALARS="):])
+
+        def flat(a: Any) -> List[Any]:
+            return [y for x in a for y in flat(x)] if isinstance(a, list) else [a]
+
+        fa, fb = flat(last), flat(ref)
+        bad = len(fa) != len(fb) or any((a is None) != (b is None) or (a is not None and abs(a - b) > 1e-9 * max(abs(a), abs(b))) for a, b in zip(fa, fb))
+        sub = []
+        if bad:
+            sub.append({"key": f"{case['op']}|scalar_depends_on_call_history|{case['key']}",
+                        "msg": f"{case['key']}: {case['vals']} -> scalars of the last call {fa} vs the same call first in a fresh interpreter {fb}"})
+        return {"violations": sub, "steps": len(case["vals"]) + 1, "outcome": "hyper_history", "nontrivial": any(x is not None for x in fa)}
     if case["kind"] == "prim_history":
         sub = []
         for i, dt in enumerate(case["seq"]):
